@@ -410,7 +410,8 @@ def main():
     if not build_problems:
         rng = random.Random(seed)
         # corpus first
-        cdir = os.path.join(VERIF, "corpus", pid)
+        # a part has its own script language: its corpus lives in corpus/<id>_<part>/
+        cdir = os.path.join(VERIF, "corpus", pid + ("_" + part if part else ""))
         for f in sorted(glob.glob(os.path.join(cdir, "*.txt"))):
             for line in open(f):
                 line = line.split("#")[0].strip()
@@ -570,7 +571,7 @@ def main():
         "trusted_base": [
             "Coq 8.16.1 kernel (coqc, vm_compute used in Examples/cases.v; native_compute not used)",
             "axioms per theorem as printed by Print Assumptions: " + json.dumps(axioms),
-            "extraction with ExtrOcamlBasic only (bool, option, unit, list, prod, sumbool -> OCaml; N/positive/nat stay inductive), OCaml 4.13.1, modelrun/driver.ml.in",
+            "extraction with ExtrOcamlBasic only (bool, option, unit, list, prod, sumbool -> OCaml; N/positive/nat stay inductive), OCaml 4.13.1, modelrun/driver.ml.in (zarith only for decimal text <-> binary N conversion)",
             "correspondence harness: /verif/harness (implrun %s), tools/check.py, tools/props/%s.py generators and monitors" % (P.IMPL, pid.lower()),
         ] + list(getattr(P, "TRUSTED", [])),
         "evaluations": len(scripts),
